@@ -28,7 +28,25 @@ pub mod tokio {
 pub mod serde_json { pub struct Value { pub _p: u8 } }
 pub use serde_json::Value;
 impl Clone for Value { #[verifier::external_body] fn clone(&self) -> (r: Self) ensures r == *self { unimplemented!() } }
-pub struct Plugin { pub _p: u8 }
+// the reply channel's sending half, as far as a change of the spawning tail may touch it (tokio mpsc)
+pub struct Sender { pub id: Ghost<int> }
+pub struct OwnedPermit { pub id: Ghost<int> }
+pub struct SendErr { pub _p: u8 }
+impl Clone for Sender { #[verifier::external_body] fn clone(&self) -> (r: Self) ensures r == *self { unimplemented!() } }
+impl Sender {
+    // a future: waits for a free slot of the channel (under E2/E15 its `.await` is an await_point)
+    #[verifier::external_body]
+    pub fn reserve_owned(self) -> (r: ::std::result::Result<OwnedPermit, SendErr>) { unimplemented!() }
+    #[verifier::external_body]
+    pub fn reserve(&self) -> (r: ::std::result::Result<OwnedPermit, SendErr>) { unimplemented!() }
+}
+impl<T> Context<T> for ::std::result::Result<T, SendErr> {
+    #[verifier::external_body]
+    fn context(self, c: &'static str) -> (r: anyhow::Result<T>)
+        ensures match self { Ok(v) => r == anyhow::Result::<T>::Ok(v), Err(_) => r is Err }
+    { unimplemented!() }
+}
+pub struct Plugin { pub sender: Sender, pub _p: u8 }
 impl Clone for Plugin { #[verifier::external_body] fn clone(&self) -> (r: Self) ensures r == *self { unimplemented!() } }
 /// env mirror of the subscription table (HashMap<String, boxed callback>)
 // `id`: ghost identity (a struct of PhantomData only would be single-valued: any two values provably equal)
